@@ -27,6 +27,7 @@ func init() {
 			"R15.3: a message without destination is broadcast to the group's members (minus the sender only under noecho), one with a destination is written to exactly g.GetClient(dest); only broadcast chat enters the history. " +
 			"R15.4 (proof): len(g.history) <= 50 is an inductive invariant of every writer of Group.history. " +
 			"R15.5: ClearChatHistory has the three modes (everything, one user's messages, one message of a user). " +
+			"R15.8: a broadcast chat message is recorded in the history before the snapshot of its recipients is taken (no AddToChatHistory is reachable from the GetClients call of the broadcast): a member that joins in between gets it from the replay instead of getting it neither way. " +
 			"R15.7: what GetChatHistory returns is a private copy (make+copy, append to an empty slice, slices.Clone), never a slice that shares the group's array: the replay iterates over it outside the lock while clearchat compacts that array in place. " +
 			"R15.6: GetChatHistory ages the history against maxHistoryAge(description) before any other read of it; the aging function compares each entry's age with the bound it is given.",
 		NotDecided: []string{
@@ -39,6 +40,7 @@ func init() {
 
 func runC15(c *Ctx) {
 	defer runC15Private(c)
+	defer runC15RecordFirst(c)
 	defer runC15Aging(c)
 	p := c.P
 	c.Rule("R15.1", "E3", "client-supplied source/username never flow out while they differ from the sender's identity; spoofing returns a ProtocolError", 8)
@@ -923,4 +925,72 @@ func runC15Private(c *Ctx) {
 	}
 	c.Check(ok && nret > 0, "R15.7", "GetChatHistory returns a private copy", pos, fmt.Sprintf("%d return(s), each of a slice allocated in the function", nret),
 		"GetChatHistory hands out a slice that can share the group's array: the replay on join reads it outside the lock while clearchat and new messages shift entries in place")
+}
+
+// R15.8: record, then snapshot.  A client admitted between the two steps is in
+// neither the snapshot nor - with the other order - the history it replays.
+func runC15RecordFirst(c *Ctx) {
+	p := c.P
+	c.Rule("R15.8", "E3", "a broadcast chat message is recorded before its recipients are snapshotted", 1)
+	hm := p.Func("rtpconn", "", "handleClientMessage")
+	if hm == nil {
+		c.Unknown("R15.8", "anchors", 0, "handleClientMessage not found")
+		return
+	}
+	ff := p.Facts().Analyze(hm)
+	var adds, snaps []*ast.CallExpr
+	ast.Inspect(hm.Body(), func(n ast.Node) bool {
+		call, ok := n.(*ast.CallExpr)
+		if !ok {
+			return true
+		}
+		f := calleeOf(&CallSite{Call: call, In: hm})
+		if fnIs(f, "group", "Group", "AddToChatHistory") {
+			adds = append(adds, call)
+		}
+		return true
+	})
+	if len(adds) == 0 {
+		c.Bad("R15.8", "history recorded before the recipients are snapshotted", hm.Pos(), "no AddToChatHistory in handleClientMessage")
+		return
+	}
+	// the snapshots of the same case clause: GetClients calls in the clause that contains the record
+	clauseOf := func(n ast.Node) *ast.CaseClause {
+		var cur ast.Node = n
+		var out *ast.CaseClause
+		for cur != nil {
+			if cc, ok := cur.(*ast.CaseClause); ok {
+				out = cc // outermost: the message-type case
+			}
+			cur = p.Parent(hm.File, cur)
+		}
+		return out
+	}
+	ok := true
+	var at token.Pos
+	n := 0
+	for _, a := range adds {
+		cl := clauseOf(a)
+		if cl == nil {
+			continue
+		}
+		ast.Inspect(cl, func(m ast.Node) bool {
+			call, isC := m.(*ast.CallExpr)
+			if !isC || !fnIs(calleeOf(&CallSite{Call: call, In: hm}), "group", "Group", "GetClients") {
+				return true
+			}
+			snaps = append(snaps, call)
+			n++
+			if ff.ReachableFrom(call, a) {
+				ok, at = false, a.Pos()
+			}
+			return true
+		})
+	}
+	pos := adds[0].Pos()
+	if at.IsValid() {
+		pos = at
+	}
+	c.Check(ok && n > 0, "R15.8", "history recorded before the recipients are snapshotted", pos, fmt.Sprintf("%d snapshot(s) in the chat case, none of which can be followed by the record", n),
+		"the message is recorded in the history after the snapshot of its recipients was taken: a member that joins in between receives it neither live nor in the replay")
 }
